@@ -688,6 +688,24 @@ def _norm_type(schema, t, v, path):
         if isinstance(v, int) and v in (0, 1):
             return bool(v)
         raise InvalidInput("%s: expected bool" % path)
+    if t[0] == "integer":
+        x = _norm_type(schema, "integer", v, path)
+        if t[1].get("min") is not None and x < t[1]["min"]:
+            raise InvalidInput("%s: %d below minimum" % (path, x))
+        if t[1].get("max") is not None and x > t[1]["max"]:
+            raise InvalidInput("%s: %d above maximum" % (path, x))
+        return x
+    if t[0] == "string":
+        x = _norm_type(schema, "string", v, path)
+        if t[1].get("min") is not None and len(x) < t[1]["min"]:
+            raise InvalidInput("%s: too short" % path)
+        if t[1].get("max") is not None and len(x) > t[1]["max"]:
+            raise InvalidInput("%s: too long" % path)
+        return x
+    if t[0] == "enum":
+        if not isinstance(v, str) or v not in t[1]:
+            raise InvalidInput("%s: %r not in enum" % (path, v))
+        return v
     if t[0] == "list":
         if not isinstance(v, list):
             raise InvalidInput("%s: expected list" % path)
